@@ -301,13 +301,32 @@ class HandlerTraversal:
         out.append(ch)
     return out
 
+  @staticmethod
+  def _terminates(stmts):
+    if not stmts:
+      return False
+    last = stmts[-1]
+    if isinstance(last, (ast.Return, ast.Raise)):
+      return True
+    if isinstance(last, ast.If):
+      return HandlerTraversal._terminates(last.body) and \
+          HandlerTraversal._terminates(last.orelse)
+    return False
+
   def _block(self, stmts, env, cur, exits, fi, depth, guards):
     cur = dict(cur)
     env = dict(env)
+    guards = list(guards)
     for s in stmts:
       cur = self._stmt(s, env, cur, exits, fi, depth, guards)
       if cur is None:
         return None
+      # `if c: ...return` followed by more statements: those run under not c
+      if isinstance(s, ast.If):
+        if self._terminates(s.body) and not self._terminates(s.orelse):
+          guards = guards + [('F', core.norm(s.test))]
+        elif self._terminates(s.orelse) and not self._terminates(s.body):
+          guards = guards + [('T', core.norm(s.test))]
     return cur
 
   def _stmt(self, s, env, cur, exits, fi, depth, guards):
